@@ -130,7 +130,11 @@ func runC20(r *vc.Run, replay string) {
 	ch, err := w.StartClient("c20", true, world.InitArg{DBs: []world.DBSpec{
 		{Name: "at", Driver: "seata-at-mysql", DSN: dbAT.DSN("app", ""), MaxOpen: 8},
 		{Name: "xa", Driver: "seata-xa-mysql", DSN: dbXA.DSN("app", ""), MaxOpen: 8},
-	}}, []string{"GORACE=halt_on_error=0 log_path=" + filepath.Join(r.RunDir, racePrefix)})
+	},
+		// a small phase-two commit buffer flushed every 20 ms: batches are handed to the commit workers while further
+		// commit requests keep arriving
+		Replace: map[string]string{"seata:\n": "seata:\n  async:\n    buffer_limit: 6\n    buffer_clean_interval: 20ms\n    receive_chan_size: 8\n    commit_worker_count: 2\n    commit_worker_buffer_size: 1\n"}},
+		[]string{"GORACE=halt_on_error=0 log_path=" + filepath.Join(r.RunDir, racePrefix)})
 	if err != nil {
 		r.Errorf("%v", err)
 		return
